@@ -60,6 +60,7 @@ class Unit:
         self.notes = []
 
 
+DERIVED_FROM_C01 = ('C16', 'C20')
 DIRECTIVES = ('strmatch', 'foldinv', 'foldloops', 'closure', 'fornext', 'boxiter', 'assert', 'forwhile', 'selfparam', 'props', 'requires', 'ensures', 'loop', 'rewrite', 'rewrite*', 'insert', 'emit', 'attr', 'rename',
               'ret', 'end', 'recommends', 'decreases', 'nocanary')
 
@@ -260,6 +261,12 @@ def parse_unit(path):
     for it in u.items:
         if it[0] == 'fn':
             for c in it[1].clauses:
+                # derived tags: whatever C01 (is_match decides membership) rests on, C16 (the regex matches the empty
+                # string iff is_match("")) and C20 (two spellings of one pattern agree) rest on as well
+                if 'C01' in c.props:
+                    for d in DERIVED_FROM_C01:
+                        if d not in c.props:
+                            c.props = list(c.props) + [d]
                 u.tagged |= set(c.props)
     return u
 
